@@ -45,6 +45,7 @@ WITNESSES = ("WitnessMergeCarried", "WitnessCrissCross", "WitnessDiverged")
 SFMTS = ("2a", "pack-0.92")
 NPAT = 6
 EXOTIC = (None, "mlprop", "kind")
+MD_ZONES = (3600, 0, -18000, 19800, -1800)      # the directive's own time zone (whole seconds of time: the format's resolution)
 # how much of the exported case table is replayed (histories; tamper positions, directive cases, merged combinations per history)
 SIZES = {"quick": dict(small=13, four=30, exotic=6, ntamper=2, nmd=2, nmerge=1),
          "thorough": dict(five=150, exotic=40, ntamper=3, nmd=3, nmerge=2)}
@@ -256,10 +257,11 @@ def tamper_v4(data, raw, head, level, pos):
     return data[:head] + bz2.compress(_sub(raw, pos))
 
 
-def guarded(fn, cpu_limit=1.5, wall_limit=600.0):
+def guarded(fn, cpu_limit=2.0, wall_limit=900.0):
     """Run fn() in a forked child and return its (JSON-able) result, or ["hang", ...] when the child burns more than
-    cpu_limit seconds of CPU without finishing (a damaged container can send bzrformats' pack reader into a busy loop that
-    no Python-level watchdog can interrupt).  CPU time, not wall time, so that a loaded machine does not fake a hang."""
+    cpu_limit seconds of USER time without finishing (a damaged container can send bzrformats' pack reader into a busy loop
+    that no Python-level watchdog can interrupt; an install needs about 0.05 s).  User time, not wall or system time, so
+    that a loaded machine (slow fork, page faults) does not fake a hang."""
     r, w = os.pipe()
     pid = os.fork()
     if pid == 0:
@@ -287,12 +289,12 @@ def guarded(fn, cpu_limit=1.5, wall_limit=600.0):
             try:
                 with open("/proc/%d/stat" % pid) as f:
                     st = f.read().rsplit(")", 1)[1].split()
-                cpu = (int(st[11]) + int(st[12])) / tick
+                cpu = int(st[11]) / tick
             except (OSError, IndexError, ValueError):
                 cpu = 0.0
             if cpu > cpu_limit or time.time() - t0 > wall_limit:
                 os.kill(pid, signal.SIGKILL)
-                return ["hang", "no result after %.1f s of CPU" % cpu]
+                return ["hang", "no result after %.1f s of user time" % cpu]
     finally:
         os.close(r)
         os.waitpid(pid, 0)
@@ -312,6 +314,7 @@ class Job:
         self.dag, self.trees, self.meta, self.feats = history(self.P, pat, exotic)
         self.src = ac.build(self.dag, self.trees, sfmt, url=self.url, meta=self.meta)
         self.count = 0
+        self.guarded_left = 3
         self.workdir = workdir
         repo = self.src.repository
         with repo.lock_read():
@@ -395,10 +398,14 @@ class Job:
         else:
             secs, raw, head = sections_09(data), None, None
         names = sorted(secs)
+        if self.guarded_left <= 0:           # the watchdog is expensive when it fires: a bounded number of stream tampers per history
+            names = [x for x in names if not x.startswith("bz2-")]
         info["sections"] = names
         start = rng.randrange(len(names))
         for j in range(min(ntamper, len(names))):
             name = names[(start + j) % len(names)]
+            if name.startswith("bz2-"):
+                self.guarded_left -= 1
             where = rng.choice(secs[name])
             bad = tamper_v4(data, raw, head, *where) if fmt == "4" else _sub(data, where)
             if bad == data:
@@ -445,7 +452,7 @@ class Job:
         public = self.src.base
         try:
             full = MD.MergeDirective2.from_objects(
-                repository=self.src.repository, revision_id=rid(target), time=1234567890.0 + target, timezone=(3600, -1800, 0)[target % 3],
+                repository=self.src.repository, revision_id=rid(target), time=1234567890.0 + target, timezone=MD_ZONES[(submit + target) % len(MD_ZONES)],
                 target_branch=sub_wt.branch.base, local_target_branch=sub_wt.branch, include_patch=True, include_bundle=True,
                 public_branch=public, message="merge r%d into r%d\nplease é" % (target, submit))
         except Exception as e:
@@ -479,7 +486,7 @@ class Job:
                             "src": md2.source_branch is not None}
             o["same"] = [f for f in ("revision_id", "testament_sha1", "time", "timezone", "target_branch", "base_revision_id",
                                      "message", "patch", "bundle", "source_branch")
-                         if getattr(md, f) == getattr(md2, f) and type(getattr(md, f)) is type(getattr(md2, f))]
+                         if getattr(md, f) == getattr(md2, f)]
             if type(md2) is not MD.MergeDirective2:
                 o["same"] = []
             # the receiving side: a repository that has the whole source history (verification needs both revisions)
@@ -627,9 +634,11 @@ def signatures(row, law):
         if law == "installs":
             stage = o["outcome"].split(":")[1].strip() if o["outcome"].startswith("error:") else "?"
             exc = o["outcome"].split(":")[2].strip() if o["outcome"].count(":") >= 2 else "?"
-            return ["installs:%s.%s:%s:%s" % (site, stage, exc, feats)]
+            return ["installs:%s.%s:%s" % (site, stage, exc if feats == "plain" else feats)]
         if law == "tamper":
-            return sorted({"tamper:%s:%s:%s" % (site, t["section"], "accepted-changed" if t["outcome"] == "changed" else t["outcome"])
+            # a hang is one defect wherever the compressed stream was hit: the stream ends early without an error
+            return sorted({"tamper:%s:%s:%s" % (site, "bz2-stream" if t["outcome"] == "hang" and t["section"].startswith("bz2-")
+                                                else t["section"], "accepted-changed" if t["outcome"] == "changed" else t["outcome"])
                            for t in o["tamper"] if t["outcome"] not in ("rejected", "same")})
         return ["%s:%s:%s:%s" % (law, site, "merge" if meta.get("merge") else "linear", feats)]
     md = c["md"]
@@ -638,7 +647,14 @@ def signatures(row, law):
         return ["bundletamper:MergeDirective2:base64-text:accepted-changed"]
     if law == "patchtamper":
         return ["patchtamper:MergeDirective2._verify_patch:accepted"]
-    if law in ("roundtrip", "verify"):
+    if law == "roundtrip":
+        lost = sorted({"revision_id", "testament_sha1", "time", "timezone", "target_branch", "base_revision_id", "message",
+                       "patch", "bundle", "source_branch"} - set(o["same"]))
+        tz = MD_ZONES[(c["submit"] + c["target"]) % len(MD_ZONES)]
+        if lost and set(lost) <= {"time", "timezone"} and tz < 0 and tz % 3600 and o["present"] == md:
+            return ["roundtrip:parse_patch_date:negative-non-whole-hour-offset"]
+        return ["roundtrip:MergeDirective2:lost=%s:fields=%s" % ("+".join(lost) or "presence", combo)]
+    if law == "verify":
         return ["%s:MergeDirective2:fields=%s" % (law, combo)]
     return ["%s:MergeDirective2+%s:%s" % (law, "bundle" if md["bundle"] else "branch", feats)]
 
@@ -646,9 +662,12 @@ def signatures(row, law):
 def selftest_rows(rows):
     """Binding self-test: corrupted copies of good observations must be rejected by the Trace module, each by its law."""
     b = next((r for r in rows if r["kind"] == "bundle" and r["impl"]["outcome"] == "ok" and len(r["impl"]["written"]) >= 2
-              and r["impl"]["before"]), None)
+              and r["impl"]["before"] and all(t["outcome"] in ("rejected", "same") for t in r["impl"]["tamper"])), None)
     m = next((r for r in rows if r["kind"] == "md" and r["c"]["merge"] and r["c"]["md"]["bundle"] and r["c"]["md"]["patch"]
-              and r["impl"]["mergeBundle"] and r["impl"]["mergeBundle"] == r["impl"]["mergeBranch"]), None)
+              and r["impl"]["mergeBundle"] and r["impl"]["mergeBundle"] == r["impl"]["mergeBranch"]
+              and len(r["impl"]["same"]) == 10 and r["impl"]["patchTamper"] and r["impl"]["bundleTamper"]
+              and all(t["outcome"] in ("rejected", "same") for t in r["impl"]["bundleTamper"])
+              and all(t == "failed" for t in r["impl"]["patchTamper"])), None)
     if b is None or m is None:
         raise core.MachineryError("binding self-test: no suitable recorded execution")
     out = [(_slim(b), None), (_slim(m), None)]
